@@ -5,6 +5,7 @@ traces with TLC, classify rejections, write evidence.  TLC is the only oracle; n
 import glob
 import json
 import os
+import random
 import re
 import shutil
 import subprocess
@@ -99,8 +100,59 @@ def _tlaval(v):
     return v if isinstance(v, Raw) else tla_value(v)
 
 
+class _Slots:
+    """System-wide pool of JVM slots (flock on files under /tmp): several checks running at the same time (seeded
+    changes judged in parallel, a background sweep next to a quick check) must not start more JVMs than the machine
+    has memory for - the kernel's OOM killer would turn that into tool failures."""
+    DIR = "/tmp/verif.slots"
+
+    def __init__(self, n):
+        self.n = max(1, n)
+        self.held = []
+
+    def __enter__(self):
+        import fcntl
+        os.makedirs(self.DIR, exist_ok=True)
+        total = max(8, (os.cpu_count() or 8) + 4)
+        want = min(self.n, total)
+        t0 = time.time()
+        while True:
+            got = []
+            start = random.randrange(total)
+            for i in range(total):
+                fd = os.open(os.path.join(self.DIR, "slot%d" % ((start + i) % total)), os.O_CREAT | os.O_RDWR, 0o666)
+                try:
+                    fcntl.flock(fd, fcntl.LOCK_EX | fcntl.LOCK_NB)
+                    got.append(fd)
+                    if len(got) == want:
+                        break
+                except OSError:
+                    os.close(fd)
+            if len(got) == want or time.time() - t0 > 3600:   # (never wait for ever: after an hour go ahead regardless)
+                self.held = got
+                return self
+            for fd in got:
+                os.close(fd)
+            time.sleep(0.2 + random.random() * 0.8)
+
+    def __exit__(self, *a):
+        for fd in self.held:
+            os.close(fd)
+        self.held = []
+
+
 def run_tlc(module, cfg, wd, tag, workers=1, timeout=900, env=None, extra=(), xmx="4g", simulate=None):
-    """Runs TLC on spec/<module>.tla with the given cfg text.  Returns (exit code, output path)."""
+    """Runs TLC on spec/<module>.tla with the given cfg text.  Returns (exit code, output path).  A JVM that was killed
+    from outside (SIGKILL: the kernel's OOM killer under a loaded machine) is started once more."""
+    for attempt in (1, 2):
+        with _Slots(1 if workers <= 1 else min(workers, 4)):
+            rc, outp = _run_tlc(module, cfg, wd, tag, workers, timeout, env, extra, xmx, simulate)
+        if rc not in (-9, 137) or attempt == 2:
+            return rc, outp
+        time.sleep(5 + random.random() * 10)
+
+
+def _run_tlc(module, cfg, wd, tag, workers, timeout, env, extra, xmx, simulate):
     os.makedirs(wd, exist_ok=True)
     cfgp = os.path.join(wd, tag + ".cfg")
     with open(cfgp, "w") as fh:
